@@ -772,7 +772,10 @@ func plans(quick bool) []plan {
 		nextq := next
 		nextq.Kinds = []ucon.VoteType{nx}
 		// cheapest first: what a system does not use of its share goes to the later ones
-		return []plan{{nextq, 5}, {adv, 4}, {escT3, 5}, {certT3, 6}, {escT6, 7}}
+		// certificate round over TWO round indexes: a quorum status latched in index 1 must not survive into index 2
+		certIdx2 := certT3
+		certIdx2.Name, certIdx2.MaxIndex = "cert-idx2-T3", 2
+		return []plan{{nextq, 5}, {adv, 4}, {escT3, 5}, {certIdx2, 5}, {certT3, 6}, {escT6, 7}}
 	}
 	t := func(c Cfg, name string, f func(*Cfg)) Cfg { f(&c); c.Name = name; return c }
 	return []plan{
